@@ -148,6 +148,9 @@ pub fn recover_and_check(
         if !ex.resync_after_recovery("C01") {
             return;
         }
+        if std::env::var_os("SIM_TRACE").is_some() {
+            eprintln!("TRACE recovered ok; versions now {}", ex.versions.len());
+        }
         // which admissible version did we land on? (resync pushed a copy as the newest)
         let landed = ex.versions[before].clone();
         to_version = allowed.iter().rev().find(|v| *ex.versions[**v] == *landed).copied();
@@ -155,7 +158,13 @@ pub fn recover_and_check(
         if !ex.viols.is_empty() {
             return;
         }
+        if std::env::var_os("SIM_TRACE").is_some() {
+            eprintln!("TRACE after_open_checks ok");
+        }
         ex.verify_psp_contents();
+        if std::env::var_os("SIM_TRACE").is_some() {
+            eprintln!("TRACE verify_psp_contents done viols={:?}", ex.viols);
+        }
         if !ex.viols.is_empty() {
             return;
         }
@@ -183,7 +192,7 @@ pub fn recover_and_check(
         }
     }));
     if r.is_err() {
-        ex.viol("C01", "recovery-panic", "panic while recovering / using a crash image".into());
+        ex.viol("C01", "recovery-panic", format!("panic while recovering / using a crash image: {}", crate::runner::last_panic()));
     }
     // take the recovery lifetime's log before closing (for nested crashes)
     let (recovery_log, recovery_base) = if record {
@@ -215,6 +224,18 @@ pub fn eval_point(
     let mut w = CrashWalker::new(life.base.clone(), &life.log);
     w.advance_to(pt.index);
     let (mut image, info) = w.image(&pt.choice);
+    if std::env::var_os("SIM_TRACE").is_some() {
+        eprintln!("TRACE crash point {pt:?}: allowed={allowed:?} info={info:?} log_len={}", life.log.len());
+        let lo = pt.index.saturating_sub(70);
+        for (i, op) in life.log.iter().enumerate().skip(lo).take(pt.index - lo + 12) {
+            let d = match op {
+                DOp::Write { off, data, applied } => format!("write off={off} len={} applied={applied}", data.len()),
+                DOp::Read { .. } | DOp::Len => continue,
+                o => format!("{o:?}"),
+            };
+            eprintln!("TRACE  {}{i}: {d}", if i == pt.index { ">>" } else { "  " });
+        }
+    }
     stats.images += 1;
     stats.pending_total += info.pending as u64;
     if info.torn > 0 {
